@@ -15,7 +15,7 @@
 use bytes::{Bytes, BytesMut};
 use snap::raw::{Decoder, Encoder};
 
-use crate::Result;
+use crate::{Error, Result};
 
 pub(crate) struct Compressor {
     encoder: Encoder,
@@ -38,6 +38,9 @@ impl Compressor {
     }
 }
 
+/// The largest uncompressed size that a file in the archive can have: see doc/format.md.
+const MAX_DECOMPRESSED_LEN: usize = 1 << 30;
+
 #[derive(Default)]
 pub(crate) struct Decompressor {
     decoder: Decoder,
@@ -53,6 +56,16 @@ impl Decompressor {
     /// Returns a slice pointing into a reusable object inside the Decompressor.
     pub fn decompress(&mut self, input: &[u8]) -> Result<Bytes> {
         let max_len = snap::raw::decompress_len(input)?;
+        // The length comes from the first bytes of the file, so in a damaged file it can
+        // be anything up to 4GB. The format limits blocks (and index hunks are far
+        // smaller) to 1GB: don't allocate more than that on the say-so of a bad header.
+        if max_len > MAX_DECOMPRESSED_LEN {
+            return Err(Error::InvalidMetadata {
+                details: format!(
+                    "Compressed file claims to hold {max_len} bytes, more than the format allows"
+                ),
+            });
+        }
         let mut out = BytesMut::zeroed(max_len);
         let actual_len = self.decoder.decompress(input, &mut out)?;
         out.truncate(actual_len);
